@@ -87,6 +87,7 @@ type Sim struct {
 	srv           *httptest.Server
 	rpcSrv        *rpc.Server
 	GuardianKeys  []common.Address
+	FinalizedMode bool // the watcher under test polls the finalized head (set by Start)
 }
 
 type logSub struct {
@@ -296,6 +297,28 @@ func (a *ethAPI) GetBlockByNumber(ctx context.Context, tag string, full bool) (m
 	}{len(s.Log), b.Number})
 	s.Log[len(s.Log)-1].Detail = fmt.Sprintf("%s -> %d", tag, b.Number)
 	return s.headerJSON(b), nil
+}
+
+// BlockNumber answers eth_blockNumber: the latest block the node knows. Where the watcher polls the finalized head
+// (FinalizedMode) the latest block is the highest one mined - transactions "mined ahead of the served head" are in
+// blocks between the finalized head and this tip; elsewhere it is the served head itself.
+func (a *ethAPI) BlockNumber(ctx context.Context) (hexutil.Uint64, error) {
+	s := a.s
+	s.mu.Lock()
+	defer s.mu.Unlock()
+	if err := s.enter("blockNumber", ""); err != nil {
+		return 0, err
+	}
+	tip := s.Head
+	if s.FinalizedMode {
+		for n := range s.canon {
+			if n > tip {
+				tip = n
+			}
+		}
+	}
+	s.Log[len(s.Log)-1].Detail = fmt.Sprintf("-> %d (served head %d)", tip, s.Head)
+	return hexutil.Uint64(tip), nil
 }
 
 func (a *ethAPI) GetBlockByHash(ctx context.Context, hash common.Hash, full bool) (map[string]interface{}, error) {
